@@ -19,7 +19,19 @@ invocation is judged on its own:
       and otherwise immediately, `e2fsck -fn` must exit 0 and the independent checker must
       find nothing.
  A refusal that says "requires a freshly checked filesystem" is followed by `e2fsck -fy`
- (preparation, must exit 0/1) and one retry.
+ (preparation, must exit 0/1) and one retry.  After a consistency violation the sequence
+ goes on only if one `e2fsck -fy` brings back a consistent filesystem with the same tree.
+
+Sequences: ~30 % forced orders (FORCED: csum off -> UUID -> csum on; seed on -> UUID -> seed
+off; journal remove -> add; quota off -> on; -I grow -> csum toggle; ea_inode on -> large
+xattrs written with debugfs -> csum toggle; ...), a few MMP plans (every read-write open of
+an MMP filesystem sleeps >= 11 s), the rest random, drawn against the current superblock.
+
+Violation keys:  C11 <option> setting-not-in-effect | unrequested-sb-field <field> |
+tree-differs <attribute> | e2fsck-fn <first problem line, digits -> N> [<csum mode>,
+orphan_file, bigalloc, inline_data, ea_inode as present before the run][ after-requested-e2fsck]
+| pyext4 <problem keys>[ after-requested-e2fsck] | requested-fsck-failed exit <n> |
+refused-but-changed | tune2fs-signal <n>;  C11 sequence tree-differs <attribute>.
 """
 import calendar
 import json
@@ -425,6 +437,7 @@ def plan_sequences(seed, n, infos, tier):
 # execution and judgement of one sequence
 
 FRESH_MSG = "requires a freshly checked filesystem"
+NOSPACE_RE = re.compile(r"Could not allocate block|No free space|No space left")
 
 
 def norm_fsck_line(text):
@@ -652,6 +665,13 @@ class Seq:
             when = " after the requested e2fsck %s (exit %s)" % (asked, p.rc)
             if p.timed_out:
                 self.inconclusive.append("requested e2fsck timeout after " + label)
+                self.broken = True
+                return
+            if NOSPACE_RE.search(p.text + p.etext):
+                # a conversion that needs room (checksum tails, htree rebuild) cannot be completed
+                # on a filesystem without free blocks: precondition not met, no verdict
+                st["asked_nospace"] = True
+                self.inconclusive.append("requested e2fsck %s ran out of space after %s" % (asked, label))
                 self.broken = True
                 return
             if p.rc not in (0, 1):
@@ -926,5 +946,7 @@ def main(tier, seed, replay=None, scale=1.0):
         "images whose build needs it are settled once with e2fsck -fy (listed under images); directories "
         "are indexed with e2fsck -fyD where marked, since mke2fs -d writes no htree",
         "E2FSPROGS_UNDO_DIR points into the scratch directory so that -I uses its default undo file",
+        "a requested e2fsck that reports 'Could not allocate block' (completely full filesystem) makes the "
+        "case inconclusive: the conversion needs free blocks",
     ]
     return rep.finish(min_nontrivial=1 if rcase else 2)
